@@ -37,6 +37,9 @@ def handle (toks : List String) : String :=
     match checkName (fun f => fs.contains f) (parseStr name) with
     | some f => s!"some [{fmtStr f}]"
     | none => "none"
+  | ["row", fields] => "[" ++ fmtStr (writeRow (parseStrs fields)) ++ "]"
+  | ["parse", line] => fmtStrs (parseRow (parseStr line))
+  | ["cols", line] => fmtStrs (splitCols (parseStr line))
   | _ => "bad-op"
 
 def main : IO Unit := serve handle
